@@ -154,6 +154,36 @@ let n_traces = ref 0 and n_ok = ref 0 and n_mis = ref 0 and n_labels = ref 0
 let n_snap = ref 0 and n_obs = ref 0 and n_blk = ref 0
 let kinds : (string, int) Hashtbl.t = Hashtbl.create 32
 let bump k = Hashtbl.replace kinds k (1 + try Hashtbl.find kinds k with Not_found -> 0)
+
+(* model transition coverage: which (where the acting call was, what the model's step did) pairs the
+   co-simulated traces exercised.  Key: "<pc before>><pc after or done>/<observation kind>". *)
+let n_fine_cont = ref 0
+let trans : (string, int) Hashtbl.t = Hashtbl.create 64
+let bump_t k = Hashtbl.replace trans k (1 + try Hashtbl.find trans k with Not_found -> 0)
+let pc_name = function
+  | PEnter (_, _, None) -> "Enter" | PEnter (_, _, Some _) -> "EnterLim" | PInCb _ -> "InCb" | PKeyTry _ -> "KeyTry"
+  | PKeyWait _ -> "KeyWait" | PQueued _ -> "Queued" | PCleanup _ -> "Cleanup" | PCancel _ -> "Cancel"
+  | PDrops (_, ADoneUnit) -> "Drops" | PDrops (_, ADoneErr) -> "DropsErr" | PDrops (_, ADonePanicked) -> "DropsPanic"
+  | PDrops (_, AReenter _) -> "DropsReenter" | PScan _ -> "Scan" | PStreamEnter -> "StreamEnter"
+  | PStream _ -> "Stream" | PStreamDrop _ -> "StreamDrop" | PCount -> "Count" | PKeys -> "Keys"
+let obs_name = function
+  | ONothing -> "-" | OGuard (_, _, None) -> "guardNone" | OGuard (_, _, Some _) -> "guardSome" | OTryFail -> "tryfail"
+  | OErr -> "err" | OPanicked -> "panicked" | OUnit -> "unit" | OCancelled -> "cancelled" | OOffered _ -> "offered"
+  | OExpired [] -> "expired0" | OExpired _ -> "expired" | OStream _ -> "stream" | OItem _ -> "item" | OPending -> "pending"
+  | OEnd -> "end" | OCount _ -> "count" | OKeys _ -> "keys" | OVal None -> "valNone" | OVal (Some _) -> "valSome"
+  | OExists -> "exists" | OConsumed _ -> "consumed"
+let label_aid = function
+  | LStart (a, _) | LResume (a, _) | LSub (a, _, _) | LPollEnd a | LCancel a | LCbReturn (a, _, _) -> Some a
+  | _ -> None
+let sub_name st = function
+  | LSub (a, k, _) ->
+      (match aget a st.s_ops with
+       | Some (PStream subs) | Some (PStreamDrop subs) ->
+           (match aget k subs with Some SInit -> ":init" | Some SQueued -> ":queued" | Some (SUnlocking _) -> ":unlocking" | None -> ":none")
+       | _ -> "")
+  | LCbReturn (_, r, h) -> (match r with CbOk -> ":ok" | CbErr -> ":err" | CbPanic -> ":panic") ^ (if h then ":hold" else ":table")
+  | _ -> ""
+let pc_at st a = match aget a st.s_ops with Some p -> pc_name p | None -> "none"
 let distinct : (int, unit) Hashtbl.t = Hashtbl.create 4096
 let maxlen = ref 0
 
@@ -166,17 +196,65 @@ let process_trace (id : string) (backend : string) (lines : (char * string) list
   let pending_model_obs = ref None in
   let h = ref 0 in
   let nl = ref 0 in
+  (* fine-grained traces: [marker] = the segment being read ends with that agent parked in the middle of a
+     critical section; [mid] = the agent that is there now, with the observation the model produced when
+     the whole critical section was applied at its first half (the linearisation point, DESIGN section 4.6) *)
+  let marker = ref None in
+  let marker_site = ref 0 in
+  let mid = ref None in
+  let entering = ref false in
+  (* sites 1 (_unlock after the key mutex was released) and 3 (PendingLock::drop after the waiting future was
+     dropped): the critical section takes effect at its first half (others can see the release at once);
+     sites 4 (after the look-up) and 7 (entry of the clean-up after a failed try): nothing another thread can
+     see without the global lock has happened yet, the critical section takes effect at its second half *)
+  let early site = (site = 1 || site = 3) in
   (try
     List.iter (fun (tag, rest) ->
       match tag with
+      | 'm' ->
+          (match split_on ' ' rest with
+           | a :: site :: _ -> marker := Some (int_of_string a); marker_site := int_of_string site
+           | _ -> ())
+      | 'l' when (match !mid, label_aid (parse_label (split_on ' ' rest)) with
+                  | Some (a, _), Some x -> int_of_nat x = a | _ -> false) ->
+          (* second half of a critical section: the model already made the whole step *)
+          incr idx; incr n_labels; incr nl; incr n_fine_cont;
+          h := Hashtbl.hash (!h, rest);
+          (match parse_label (split_on ' ' rest) with
+           | LSub _ -> raise Exit   (* streams in the middle of a critical section: not compared *)
+           | _ -> ());
+          (match !mid with
+           | Some (_, Some o) -> pending_model_obs := Some (`Obs o)
+           | Some (_, None) ->
+               let toks = split_on ' ' rest in
+               (match toks with k :: _ -> bump k | [] -> ());
+               let lab = parse_label toks in
+               (match step c !st lab with
+                | ROk (s', o) ->
+                    (match label_aid lab with
+                     | Some a -> bump_t (pc_at !st a ^ sub_name !st lab ^ ">" ^ pc_at s' a ^ "/" ^ obs_name o)
+                     | None -> ());
+                    st := s'; pending_model_obs := Some (`Obs o)
+                | RInvalid -> pending_model_obs := Some `Invalid
+                | RPanic site -> pending_model_obs := Some (`Panic (int_of_nat site)))
+           | None -> ());
+          mid := None
       | 'l' ->
           incr idx; incr n_labels; incr nl;
           h := Hashtbl.hash (!h, rest);
           let toks = split_on ' ' rest in
           (match toks with k :: _ -> bump (match toks with "start" :: _ :: c :: _ -> "start-" ^ c | "gop" :: _ :: c :: _ -> "gop-" ^ c | _ -> k) | [] -> ());
           let lab = parse_label toks in
+          entering := (match !marker, !mid, label_aid lab with
+                       | Some a, None, Some x -> int_of_nat x = a | _ -> false);
+          if !entering then (match lab with LSub _ -> raise Exit | _ -> ());
+          if !entering && not (early !marker_site) then pending_model_obs := Some `Late else
           (match step c !st lab with
-           | ROk (s', o) -> st := s'; pending_model_obs := Some (`Obs o)
+           | ROk (s', o) ->
+               (match label_aid lab with
+                | Some a -> bump_t (pc_at !st a ^ sub_name !st lab ^ ">" ^ pc_at s' a ^ "/" ^ obs_name o)
+                | None -> bump_t ((match toks with k :: _ -> k | [] -> "?") ^ "/" ^ obs_name o));
+               st := s'; pending_model_obs := Some (`Obs o)
            | RInvalid -> pending_model_obs := Some `Invalid
            | RPanic site -> pending_model_obs := Some (`Panic (int_of_nat site)))
       | 'o' ->
@@ -192,6 +270,17 @@ let process_trace (id : string) (backend : string) (lines : (char * string) list
                if not impl_panic then begin
                  result := VMismatch (!idx, "model-panics", Printf.sprintf "model panics at site %d, impl observed: %s" site impl); raise Exit end
                else raise Exit (* both panic: stop comparing this trace *)
+           | Some `Late ->
+               if impl <> "-" then begin
+                 result := VMismatch (!idx, "obs", Printf.sprintf "impl=[%s] in the middle of a critical section" impl); raise Exit end;
+               (match !marker with Some a -> mid := Some (a, None) | None -> ());
+               entering := false
+           | Some (`Obs o) when !entering && not impl_panic && not impl_hang ->
+               (* first half: the implementation has nothing to report yet *)
+               if impl <> "-" then begin
+                 result := VMismatch (!idx, "obs", Printf.sprintf "impl=[%s] in the middle of a critical section" impl); raise Exit end;
+               (match !marker with Some a -> mid := Some (a, Some o) | None -> ());
+               entering := false
            | Some (`Obs o) ->
                if impl_panic || impl_hang then begin
                  result := VMismatch (!idx, "impl-panic", "impl: " ^ impl ^ " model: " ^ string_of_obs ~sorted:true o); raise Exit end;
@@ -199,6 +288,7 @@ let process_trace (id : string) (backend : string) (lines : (char * string) list
                if m <> impl then begin
                  result := VMismatch (!idx, "obs", Printf.sprintf "impl=[%s] model=[%s]" impl m); raise Exit end);
           pending_model_obs := None
+      | 's' when !marker <> None -> marker := None   (* no snapshot can be taken while the global lock is held *)
       | 's' ->
           incr n_snap;
           if String.length rest >= 8 && String.sub rest 0 8 = "POISONED" then begin
@@ -235,6 +325,7 @@ let process_trace_full id backend (lines : (char * string) list) : verdict =
     let idx = ref 0 in
     let res = ref VOk in
     let last_b = ref None in
+    if List.exists (fun (tag, _) -> tag = 'm') lines then VOk else begin
     (try
       List.iter (fun (tag, rest) ->
         match tag with
@@ -260,7 +351,7 @@ let process_trace_full id backend (lines : (char * string) list) : verdict =
             last_b := None
         | _ -> ()) lines
     with Exit -> ());
-    !res
+    !res end
 
 let () =
   let args = List.tl (Array.to_list Sys.argv) in
@@ -303,6 +394,7 @@ let () =
       done
     with End_of_file -> close_in ic)) files;
   let kinds_s = String.concat "," (List.sort compare (Hashtbl.fold (fun k v acc -> Printf.sprintf "\"%s\":%d" k v :: acc) kinds [])) in
-  Printf.printf "SUMMARY {\"traces\":%d,\"ok\":%d,\"mismatch\":%d,\"labels\":%d,\"obs_compared\":%d,\"snapshots_compared\":%d,\"blocked_sets_compared\":%d,\"distinct_label_sequences\":%d,\"max_labels\":%d,\"label_kinds\":{%s}}\n"
-    !n_traces !n_ok !n_mis !n_labels !n_obs !n_snap !n_blk (Hashtbl.length distinct) !maxlen kinds_s;
+  let trans_s = String.concat "," (List.sort compare (Hashtbl.fold (fun k v acc -> Printf.sprintf "\"%s\":%d" k v :: acc) trans [])) in
+  Printf.printf "SUMMARY {\"traces\":%d,\"ok\":%d,\"mismatch\":%d,\"labels\":%d,\"obs_compared\":%d,\"snapshots_compared\":%d,\"blocked_sets_compared\":%d,\"distinct_label_sequences\":%d,\"max_labels\":%d,\"label_kinds\":{%s},\"mid_cs_continuations\":%d,\"model_transitions\":{%s}}\n"
+    !n_traces !n_ok !n_mis !n_labels !n_obs !n_snap !n_blk (Hashtbl.length distinct) !maxlen kinds_s !n_fine_cont trans_s;
   exit (if !n_mis = 0 then 0 else 1)
